@@ -13,3 +13,5 @@ for p in "$@"; do
 import json,sys;d=json.load(open('$r'));print('   replay:',d.get('clause'),'|',(d.get('ops') or [''])[-1][:200])"; done
 done
 git -C /repo checkout -- . ; git -C /repo status --short
+# the evidence files now describe the changed tree: restore the committed ones
+git -C /verif checkout -- evidence 2>/dev/null
